@@ -47,6 +47,9 @@ class SimLoop(asyncio.BaseEventLoop):
         self.exc_contexts = []  # contexts passed to call_exception_handler
         self.gc_contexts = 0  # garbage-collection-timed reports (never used by an oracle)
         self.timers_fired = 0
+        self.eager_loop_thread = False  # see _race_loop_thread
+        self._racing = False
+        self.races_run = 0
         self.created_tasks = []  # every task created on this loop (to look for exceptions nobody retrieved)
         self.foreign_depth = 0  # > 0 while code runs that, in production, runs in the communicator's thread
         self.thread_violations = []  # non-thread-safe scheduling calls made from such code
@@ -110,9 +113,31 @@ class SimLoop(asyncio.BaseEventLoop):
     def call_soon_threadsafe(self, callback, *args, context=None):
         depth, self.foreign_depth = self.foreign_depth, 0
         try:
-            return super().call_soon_threadsafe(callback, *args, context=context)
+            handle = super().call_soon_threadsafe(callback, *args, context=context)
         finally:
             self.foreign_depth = depth
+        if depth > 0 and self.eager_loop_thread and not self._racing:
+            self._race_loop_thread()
+        return handle
+
+    def _race_loop_thread(self):
+        """call_soon_threadsafe wakes the loop's thread up, and that thread may well run what was handed to it (and whatever
+        that makes ready) BEFORE the calling thread executes its next statement.  With ``eager_loop_thread`` set (a per-case,
+        seeded choice) the simulator takes that branch of the race: everything that is ready runs now, in the loop's own
+        context, then the 'communicator thread' continues."""
+        saved = (FOREIGN[0], self.foreign_depth, events._get_running_loop(), self.hooks)
+        FOREIGN[0], self.foreign_depth, self.hooks, self._racing = 0, 0, None, True
+        events._set_running_loop(self)
+        try:
+            for _ in range(64):
+                if not self._ready:
+                    break
+                self.races_run += 1
+                self.step_once()
+        finally:
+            FOREIGN[0], self.foreign_depth, running, self.hooks = saved
+            events._set_running_loop(running)
+            self._racing = False
 
     def create_task(self, coro, **kwargs):
         task = super().create_task(coro, **kwargs)
